@@ -148,7 +148,7 @@ func (n *PNode) emit(out *[]string, full bool) {
 		}
 	case "bin":
 		lv := binLevel[n.Op]
-		wrap(out, n.Args[0], needs(n.Args[0], lv), full)   // left-associative: equal level on the left is fine
+		wrap(out, n.Args[0], needs(n.Args[0], lv), full) // left-associative: equal level on the left is fine
 		*out = append(*out, n.Op)
 		wrap(out, n.Args[1], needs(n.Args[1], lv+1), full) // the right operand must bind tighter
 	}
@@ -270,8 +270,8 @@ type progGen struct {
 	budget int
 }
 
-func lit(s string) *PNode           { return &PNode{K: "lit", Op: s} }
-func pvar(n string) *PNode          { return &PNode{K: "var", Op: "%" + n} }
+func lit(s string) *PNode             { return &PNode{K: "lit", Op: s} }
+func pvar(n string) *PNode            { return &PNode{K: "var", Op: "%" + n} }
 func pname(r *PNode, n string) *PNode { return &PNode{K: "name", Op: n, Recv: r} }
 func pfn(r *PNode, n string, a ...*PNode) *PNode {
 	return &PNode{K: "fn", Op: n, Recv: r, Args: a}
